@@ -109,6 +109,7 @@ cfg("MC_multi_nested.cfg", multi_consts(FieldAlpha="<- AlphaMultiN", DirOpts="<-
 cfg("MC_multi_ops.cfg", multi_consts(FieldAlpha="<- AlphaMultiO", MaxOps="= 2", Aliases='= {""}', MaxSel="= 3", OverlayKinds="<- OKindsRaise"), MULTI_INV, spec="SpecM")
 cfg("MC_multi_faults.cfg", multi_consts(FieldAlpha="<- AlphaMultiF", Aliases='= {""}', MaxSel="= 2", SeqFields="<- SomeFieldNames", LConc="= FALSE"), MULTI_INV, spec="SpecM")
 cfg("MC_multi_dirs.cfg", multi_consts(FieldAlpha="<- AlphaMultiD", DirOpts="<- DirsMixW", Aliases='= {""}', MaxSel="= 2", MaxDepth="= 2", VarVals="<- VarValsBoolBoth", OverlayKinds="= {}"), MULTI_INV, spec="SpecM")
+cfg("MC_multi_frag.cfg", multi_consts(FieldAlpha="<- AlphaMultiN", Aliases='= {""}', Conds='= {"T"}', MaxFrags="= 2", MaxSel="= 4", MaxDepth="= 2", OverlayKinds="= {}"), MULTI_INV, spec="SpecM")
 cfg("MC_multi_three.cfg", multi_consts(FieldAlpha="<- AlphaMultiT", Aliases='= {""}', MaxSel="= 1", NReq="= 3"), MULTI_INV, spec="SpecM")
 
 # ---- C16: cache / history ------------------------------------------------------------------
